@@ -56,7 +56,8 @@ impl Gen<'_> {
                 58..=60 => leaf("cmd", 0, if self.rng.gen_bool(0.5) { "true" } else { "false" }),
                 61 => leaf("cmd", 0, "nosuch"),
                 62..=69 => {
-                    if c.ld == 0 {
+                    // (not in loop conditions: `continue` there does not terminate)
+                    if c.ld == 0 || c.nocnt {
                         continue;
                     }
                     let n = if self.rng.gen_bool(0.7) { 1 } else { self.rng.gen_range(2..=3) };
